@@ -34,6 +34,8 @@ def p_lines(t):
         for name, lines in g:
             if not lines:
                 continue    # a declaration with neither value nor continuation reports no line
+            if all(not v.strip() for _, v in lines):
+                return 'field %r reports only empty lines %r: a declaration with neither value nor continuation holds no line' % (name, lines)
             ns = [n for n, _ in lines]
             if ns != list(range(ns[0], ns[0] + len(ns))):
                 return 'lines of field %r not contiguous: %r' % (name, ns)
